@@ -384,7 +384,8 @@ def gen(tier):
         multi_cert.append({'n': n, 'failing': sorted(r.sample(range(n), k)), 'mode': r.choice(['ca', 'ca', 'hook']),
                            'workers': r.choice([None, 1, 2, 4])})
     for j in range(6 if tier == 'quick' else 40):
-        multi_cert.append({'n': r.randint(2, 6), 'failing': [], 'mode': 'forget', 'workers': r.choice([None, 1, 4]), 'forgets': r.randint(1, 3), 'hold_ms': r.choice([5, 20, 60])})
+        nn = r.randint(2, 6)
+        multi_cert.append({'n': nn, 'failing': [], 'mode': 'forget', 'workers': r.choice([None, 1, 4]), 'forgets': nn + r.randint(0, 3), 'hold_ms': r.choice([5, 20, 60])})
     shipped = [{'mode': 'rejected'}, {'mode': 'unreachable'}]
     # error storms: the same recoverable error answered to every try of one request of the second attempt
     storms = []
